@@ -39,10 +39,11 @@ type C13Case struct {
 	CT          string     `json:"ct"`
 	Skip        bool       `json:"skip_defaults"`
 	ExclRO      bool       `json:"excl_ro"`
-	Security    [][]string `json:"security"`     // requirements (scheme names); "undeclared" is not declared
-	AuthOK      []string   `json:"auth_ok"`      // schemes the callback accepts
-	AuthReads   bool       `json:"auth_reads"`   // the callback consumes the request body
-	OtherBranch []string   `json:"other_branch"` // member names that only a non-matching oneOf/anyOf branch would add
+	Security    [][]string `json:"security"`             // requirements (scheme names); "undeclared" is not declared
+	AuthOK      []string   `json:"auth_ok"`              // schemes the callback accepts
+	AuthReads   bool       `json:"auth_reads"`           // the callback consumes the request body
+	AuthSwaps   bool       `json:"auth_swaps,omitempty"` // ... and then replaces input.Request by a copy carrying a context value (req.WithContext)
+	OtherBranch []string   `json:"other_branch"`         // member names that only a non-matching oneOf/anyOf branch would add
 	// the request's GetBody: "" none (as for a server-side request), "ok" replays the body, "fails" returns an error (a body that cannot be replayed)
 	GetBody string `json:"get_body,omitempty"`
 }
@@ -192,6 +193,11 @@ func runC13(c *C13Case) C13Obs {
 		if c.AuthReads && ai.RequestValidationInput.Request.Body != nil {
 			io.ReadAll(ai.RequestValidationInput.Request.Body)
 		}
+		if c.AuthSwaps {
+			type key struct{}
+			r0 := ai.RequestValidationInput.Request
+			ai.RequestValidationInput.Request = r0.WithContext(context.WithValue(r0.Context(), key{}, "user"))
+		}
 		for _, n := range c.AuthOK {
 			if n == ai.SecuritySchemeName {
 				return nil
@@ -210,6 +216,8 @@ func runC13(c *C13Case) C13Obs {
 	if err != nil {
 		catchPanic(func() { o.Err = err.Error() })
 	}
+	// what is forwarded is the request the input holds when validation returns (a callback may have replaced it)
+	req = in.Request
 	if strings.Contains(o.Err, "rewriting failed") {
 		// a body that was decoded, validated and given its defaults is refused because it cannot be written back
 		o.Violations = append(o.Violations, "valid-body-refused-when-a-default-is-set:"+strings.TrimSpace(strings.SplitN(c.CT, ";", 2)[0]))
@@ -254,7 +262,8 @@ func runC13(c *C13Case) C13Obs {
 			catchPanic(func() { o.Err = "second validation: " + err2.Error() })
 			o.Violations = append(o.Violations, "revalidate-fails"+c.defaultKinds())
 		} else {
-			q2, h2, ck2, b2, _ := snapshot(req)
+			// (the callback may have replaced the request again: what is forwarded is what the input holds now)
+			q2, h2, ck2, b2, _ := snapshot(in2.Request)
 			paramsSame := sameMulti(q2, o.QueryAfter) && sameMulti(h2, o.HeaderAfter) && fmt.Sprint(ck2) == fmt.Sprint(o.CookieAfter)
 			if paramsSame && !sameJSONText(b2, o.BodyAfter) && allOfBeforeOwnDefault(c.BodySchema) {
 				// only the body changed, and the schema has the shape of the recorded finding
@@ -265,10 +274,11 @@ func runC13(c *C13Case) C13Obs {
 		}
 		// O3b: the same, when the caller validates again with the very same input object
 		if !containsPrefix(o.Violations, "second-validation-changes-request") && !containsPrefix(o.Violations, "revalidate-") {
-			q3, h3, ck3, b3, _ := snapshot(req)
+			in.Request = in2.Request
+			q3, h3, ck3, b3, _ := snapshot(in.Request)
 			var err3 error
 			if p := catchPanic(func() { err3 = openapi3filter.ValidateRequest(context.Background(), in) }); p == nil && err3 == nil {
-				q4, h4, ck4, b4, _ := snapshot(req)
+				q4, h4, ck4, b4, _ := snapshot(in.Request)
 				if !sameMulti(q3, q4) || !sameMulti(h3, h4) || fmt.Sprint(ck3) != fmt.Sprint(ck4) || !sameJSONText(b3, b4) {
 					o.Violations = append(o.Violations, "validation-with-the-same-input-object-changes-request")
 				}
@@ -637,6 +647,7 @@ func c13ValueFor(r *Rng, g *GSchema, depth int) any {
 
 func c13Random(r *Rng) C13Case {
 	c := C13Case{CT: "application/json", Skip: r.Chance(25), ExclRO: r.Chance(20), AuthOK: []string{"s1"}, AuthReads: r.Chance(40)}
+	c.AuthSwaps = c.AuthReads && r.Chance(30)
 	// parameters
 	for _, spec := range []struct{ in, name string }{{"query", "q"}, {"query", "limit"}, {"header", "X-H"}, {"cookie", "ck"}} {
 		if !r.Chance(55) {
@@ -797,6 +808,12 @@ func c13Directed() []C13Case {
 			// an object default (deepObject query, exploded form query, header): written so that it reads back
 			C13Case{CT: "application/json", Skip: skip, Params: []C13Param{{In: "query", Name: "o", Schema: &GSchema{HasTypes: true, Types: []string{"object"}, Props: map[string]*GSchema{"a": {HasTypes: true, Types: []string{"integer"}}}, Default: map[string]any{"a": 1.0}}}}},
 			C13Case{CT: "application/json", Skip: skip, Params: []C13Param{{In: "header", Name: "X-O", Schema: &GSchema{HasTypes: true, Types: []string{"object"}, Props: map[string]*GSchema{"a": {HasTypes: true, Types: []string{"integer"}}}, Default: map[string]any{"a": 1.0}}}}},
+			// the same name in another location is another parameter: the path-level header keeps its default
+			C13Case{CT: "application/json", Skip: skip, Params: []C13Param{{In: "header", Name: "Version", Schema: intD(2), PathLevel: true}, {In: "query", Name: "Version", Schema: &GSchema{HasTypes: true, Types: []string{"integer"}}, Present: true, Value: "7"}}},
+			C13Case{CT: "application/json", Skip: skip, Params: []C13Param{{In: "query", Name: "version", Schema: intD(2), PathLevel: true}, {In: "cookie", Name: "version", Schema: &GSchema{HasTypes: true, Types: []string{"integer"}}, Present: true, Value: "7"}}},
+			// a callback that reads the body and then replaces the request by a copy with a context value
+			C13Case{CT: "application/json", Skip: skip, BodySchema: &GSchema{HasTypes: true, Types: []string{"object"}, Props: map[string]*GSchema{"n": intD(5)}}, Body: `{"k":1}`, Security: [][]string{{"s1"}}, AuthOK: []string{"s1"}, AuthReads: true, AuthSwaps: true},
+			C13Case{CT: "application/json", Skip: skip, BodySchema: &GSchema{HasTypes: true, Types: []string{"object"}, Props: map[string]*GSchema{"n": intD(5)}}, Body: `{"k":1}`, Security: [][]string{{"s2"}, {"s1"}}, AuthOK: []string{"s1"}, AuthReads: true, AuthSwaps: true},
 			C13Case{CT: "application/json", Skip: skip, Params: []C13Param{{In: "query", Name: "big", Schema: intD(1000000)}, {In: "header", Name: "X-Big", Schema: intD(123456789)}, {In: "cookie", Name: "cbig", Schema: intD(100000000000)}}},
 			C13Case{CT: "application/json", Skip: skip, Params: []C13Param{{In: "query", Name: "ids", Explode: bp(true), Schema: &GSchema{HasTypes: true, Types: []string{"array"}, Items: &GSchema{HasTypes: true, Types: []string{"integer"}}, Default: []any{1000000.0, 2.0}}}}},
 			C13Case{CT: "application/json", Skip: skip, Params: []C13Param{{In: "query", Name: "x", Schema: &GSchema{HasTypes: true, Types: []string{"number"}, Default: 1e21}}, {In: "query", Name: "y", Schema: &GSchema{HasTypes: true, Types: []string{"number"}, Default: 0.000001}}}},
